@@ -479,15 +479,15 @@ BOX_TWIST_RTOL = 6e-3  # the textbook closed form for the rectangle torsion cons
 
 
 def _cable_job(job):
-    nseg, section, curve, initial, flat = job
+    nseg, section, curve, initial, flat, two = job
     part = core.Part()
     lib = mj.load("rel")
     kind, dims = SECTIONS[section][1], SECTIONS[section][2]
     K = section_stiffness(kind, dims)
-    base_tag = "cable nseg=%d section=%s curve=%s initial=%s flat=%s" % (nseg, section, curve, initial, flat)
+    base_tag = "cable%s nseg=%d section=%s curve=%s initial=%s flat=%s" % (" x2" if two else "", nseg, section, curve, initial, flat)
     ref_forces = {}
     for pose in POSES:
-        xml = cable_xml(nseg, section, curve, initial, pose, flat)
+        xml = cable_xml(nseg, section, curve, initial, pose, flat, two)
         try:
             m = lib.load_xml(xml)
         except mj.MjError as e:
@@ -575,17 +575,19 @@ def _cable_job(job):
             d.qpos[qa:qa + 4] = qq / np.linalg.norm(qq)
         forces.append(passive())
         ref_forces[pose] = np.array(forces)
-        # root dofs of a free-floating cable: internal forces only
-        if initial == "free" and interior:
-            for j in range(m.njnt):
-                if m.jnt_type[j] == 0:
-                    va = int(m.jnt_dofadr[j])
-                    for fi, fq in enumerate(forces):
-                        part.count(1)
-                        if np.max(np.abs(fq[va:va + 3])) > CABLE_TOL * scale:
-                            part.violation("cable: net force on a free-floating cable",
-                                           "%s pose=%s configuration %d: translational root force %s"
-                                           % (base_tag, pose, fi, fq[va:va + 3]), dict(xml=xml))
+        # action = reaction: the elastic moments are internal, so the joint that carries a whole cable (free root: all 6
+        # dofs; ball root: its 3 dofs) feels no net force in any configuration
+        if initial in ("free", "ball") and interior:
+            for b, j in [(b, j) for b in cb for j in range(int(m.body_jntadr[b]), int(m.body_jntadr[b]) + int(m.body_jntnum[b]))
+                         if m.body_plugin[int(m.body_parentid[b])] < 0]:
+                va = int(m.jnt_dofadr[j])
+                nd = 6 if m.jnt_type[j] == 0 else 3
+                for fi, fq in enumerate(forces):
+                    part.count(1, key=(base_tag, pose, j, "net", fi) if np.max(np.abs(fq)) > 0 else None)
+                    if np.max(np.abs(fq[va:va + nd])) > CABLE_TOL * scale:
+                        part.violation("cable: net force / moment on the joint that carries the whole cable (action != reaction)",
+                                       "%s pose=%s configuration %d: qfrc_passive on root joint %d = %s"
+                                       % (base_tag, pose, fi, j, fq[va:va + nd]), dict(xml=xml, configuration=fi))
         d.free()
         m.free()
     # ---- 4. rigid-body invariance of the generalised forces
@@ -821,10 +823,19 @@ def _readme_units(ctx, lib):
     e = 1.0 - Q0
     i_force, i_err = 1.5 * e * DT, e * DT
     act = float(d.act[0])
+    # what the tree's README documents for the ki activation variable
+    with open(os.path.join(build.REPO, "plugin/actuator/README.md")) as fh:
+        rows = [l for l in fh.read().splitlines() if l.startswith("|`ki`")]
+    if len(rows) != 1:
+        raise RuntimeError("harness: ki row not found in plugin/actuator/README.md")
+    doc_force = "units of force" in rows[0]
+    expect = i_force if doc_force else i_err
     ctx.count(1, key="readme-units")
-    if abs(act - i_force) > 1e-9:
-        ctx.violation(K_README_UNITS, "ki=1.5, error %.3g for one step of %.3g s: act[0]=%.12g; README (I term in units of "
-                      "force) %.12g; error integral %.12g" % (e, DT, act, i_force, i_err),
+    ctx.extra["readme_ki_state_documented_as"] = "I term in units of force" if doc_force else "error integral"
+    if abs(act - expect) > 1e-9:
+        ctx.violation(K_README_UNITS, "ki=1.5, error %.3g for one step of %.3g s: act[0]=%.12g; README (%s) %.12g; I term in "
+                      "units of force %.12g, error integral %.12g"
+                      % (e, DT, act, "I term in units of force" if doc_force else "error integral", expect, i_force, i_err),
                       dict(xml=xml, ctrl=1.0, qpos0=Q0))
     d.free()
     m.free()
@@ -873,7 +884,12 @@ def run(ctx):
             continue
         jobs += [(c, v, prefix) for c in cfgs for v in front]
     ctx.extra["pid_models"] = len(jobs)
-    _serial(ctx, _pid_chunk, jobs)
+    global DT
+    dts = ctx.q((0.1,), (0.1, 0.02))      # thorough: a second timestep (limiters engage at other steps)
+    for DT in dts:
+        _serial(ctx, _pid_chunk, jobs)
+    DT = 0.1
+    ctx.extra["pid_timesteps"] = list(dts)
     _readme_units(ctx, lib)
 
     # ---- cable lattice
@@ -887,7 +903,12 @@ def run(ctx):
                     for flat in (False, True):
                         if flat and curve in ("straight", "hand"):
                             continue
-                        cjobs.append((nseg, section, curve, initial, flat))
+                        cjobs.append((nseg, section, curve, initial, flat, False))
+    # two cable instances in one model (second instance: other bodies, other dofs): the same laws for both
+    for nseg in (2, 3):
+        for initial in ("none", "ball", "free"):
+            cjobs.append((nseg, "capsule r=5mm", "hand" if nseg == 2 else "straight", initial, False, True))
+            cjobs.append((nseg, "box 4x10mm", "hand" if nseg == 2 else "arc", initial, False, True))
     ctx.extra["cable_models"] = len(cjobs) * len(POSES)
     _serial(ctx, _cable_chunk, cjobs)
 
@@ -905,7 +926,7 @@ def run(ctx):
     ctx.rule = (
         "PID: (kp,ki,kd) in {0,1.5}^3 x imax in {none,0.2} x slewmax in {none,0.5} = %d configurations x %d actuator variants "
         "(dyntype none | {integrator,filter,filterexact} x actearly x actrange{none,+-0.05}; x ctrlrange{none,+-0.5}) x ALL %d "
-        "control sequences of length 1..%d over {-1,0,1} (timestep %g, slide joint mass 1, qpos0 %g, qvel0 %g); plus the %d "
+        "control sequences of length 1..%d over {-1,0,1} (timestep %s, slide joint mass 1, qpos0 %g, qvel0 %g); plus the %d "
         "configurations x 3 variants behind each of %d kinds of preceding actuator (motor, pid[pos,vel], pid[pos,vel,ff], "
         "orientation[expmap], orientation[quat], dcmotor[no input]; their controls held at 0.77).  Each (model, sequence "
         "prefix) is one evaluation: actuator_force and the act slots after the step are compared with the reference PID; "
@@ -916,7 +937,7 @@ def run(ctx):
         "bent configuration; forces compared across poses.  Isolation: %d scenarios with >= 2 plugin instances, every "
         "callback (act_dot, compute, advance) of every instance invoked alone on sentinel-filled actuator_force / act_dot / "
         "qfrc_passive / qfrc_actuator / plugin_state / sensordata and all of mjData diffed against a deep copy."
-        % (len(cfgs), len(variants), nseq, SEQ_LEN, DT, Q0, V0, len(cfgs), len(PREFIXES) - 1, ANGLES, len(scen)))
+        % (len(cfgs), len(variants), nseq, SEQ_LEN, list(dts), Q0, V0, len(cfgs), len(PREFIXES) - 1, ANGLES, len(scen)))
     ctx.assumptions = [
         "README is silent on discretisation: integral includes the current error (backward rectangle), set-point rate is the "
         "act_dot of the dyntype state (0 for direct control), the first step after time 0 is not slew-limited, controller "
